@@ -257,6 +257,13 @@ fn run_e1_property(id: &str, thorough: bool, ev: &mut Evidence, t0: Instant) {
             ev.families.push(r);
         }
     }
+    if id == "C03" && !report::stopped() {
+        // "from any parsed position": positions with several unsupported pieces already on traps (one full turn; thorough: two)
+        let o = e1::E1Opts { prop: id, checks, move_number: 31, deadline: None, chunk: 1, roots_only: false, max_turns: if thorough { 2 } else { 1 }, follow: None };
+        let r = e1::run_family(&families::ftraps(), &o);
+        eprintln!("  {} : roots={} states={} transitions={} {:.1}s {}", r.family, r.stats.roots, r.stats.states, r.stats.transitions, r.wall_s, r.note);
+        ev.families.push(r);
+    }
     if id == "C04" && !report::stopped() {
         // C04 is decided at turn starts: dense corner / edge jams are evaluated at the root only (no expansion)
         let mut dense: Vec<families::Family> = vec![
@@ -411,6 +418,14 @@ fn run_c15(thorough: bool, ev: &mut Evidence, t0: Instant) {
     if thorough {
         ev.families.push(e1::run_family(&families::f2(), &o_all));
     } else {
+        // every state of every 2-piece board (four strength levels) and of the plus fillings around trap f6: printed, read
+        // back with the harness's reader, parsed once per distinct text (mid-turn states with pending pushes, possible
+        // pulls and captures earlier in the turn are where a printer that looks at more than the board goes wrong)
+        let o_text = e1::E1Opts { prop: id, checks: C15_TEXT, move_number: 2, deadline, chunk: 1, roots_only: false, max_turns: 1, follow: None };
+        ev.families.push(e1::run_family(&families::f2k(&families::KINDS8, "RCDErcde"), &o_text));
+        ev.families.push(e1::run_family(&families::fplus(vec![21], 3, "trap f6"), &o_text));
+    }
+    if !thorough {
         let o = e1::E1Opts { prop: id, checks: PARSE_LINK, move_number: 2, deadline, chunk: 1, roots_only: true, max_turns: 1, follow: None };
         let mut r = e1::run_family(&families::f2(), &o);
         r.family = format!("{} — roots only", r.family);
